@@ -376,7 +376,7 @@ fn dual_matrix(b: &Bounds) -> Vec<Case> {
 }
 
 /// The slow-reader sub-matrix: one end does not read for a while, the other end writes (16 KiB
-/// writes) more than all the buffers on the way hold, finishes (half-close / close) and the slow
+/// writes, 1 ms apart: `Chunk::K16Paced` says why) more than all the buffers on the way hold, finishes (half-close / close) and the slow
 /// end then reads everything to the end. The other direction carries `SLOW_REVERSE_LEN` bytes.
 fn slow_matrix(b: &Bounds) -> Vec<TcpCase> {
     let mut v = Vec::new();
@@ -986,7 +986,7 @@ pub fn run(args: &Args) -> Report {
     let b = bounds(args);
     // ---- the oracle's own parts
     let concs_max = *b.concs.iter().max().unwrap_or(&1);
-    if let Err(e) = proto::self_test().and_then(|()| tcp::self_test_payloads(&b.tcp_lens.iter().copied().chain(b.tcp_len_window).collect::<Vec<_>>(), concs_max.max(3))).and_then(|()| udp::self_test()).and_then(|()| control_self_test()) {
+    if let Err(e) = proto::self_test().and_then(|()| tcp::self_test_payloads(&b.tcp_lens.iter().copied().chain(b.tcp_len_window).chain([tcp::SLOW_REVERSE_LEN]).collect::<Vec<_>>(), concs_max.max(3))).and_then(|()| udp::self_test()).and_then(|()| control_self_test()) {
         rep.machinery_error = Some(format!("self-test: {e}"));
         return rep;
     }
@@ -1514,7 +1514,7 @@ pub fn run(args: &Args) -> Report {
     rep.assumptions.push("quick tier: 70001-byte streams (nine 8 KiB frames) everywhere; the stream of one receive window of 8 KiB frames plus 4099 bytes (the sender needs at least one window update) only with 1 connection and one-write chunking (every entry point, every close order); thorough tier: three windows and 4099 bytes in every combination, 5 simultaneous connections and more datagram lengths".into());
     rep.assumptions.push("how a read ends after BOTH directions are finished (EOF or reset) is recorded, not judged; a half-close must arrive as a true EOF and the data sent after it must arrive completely".into());
     rep.assumptions.push(format!("close-after-half-close orders: only 'the still-sending end's writes begin to fail before the deadline' is judged about the close (which error, and whether a reset or an EOF came first, is recorded in extra.tcp_closed_after_half_close_then_close_write_error_kinds); the closing end closes after the other end's payload and {} filler bytes or {} ms, whichever comes first (extra.tcp_closed_after_half_close_then_close_filler_read_before_close counts the closes that had read filler); the filler received must be a prefix of the filler sent", tcp::AFTER_HALF_FILLER_READ, tcp::AFTER_HALF_LINGER.as_millis()));
-    rep.assumptions.push(format!("slow-reader sub-matrix: the stall is a fixed time ({} s), not 'until the writer blocks'; that the writers were in fact held back when the reading began (payload bytes left to write on every connection) is recorded (extra.tcp_slow_reader_cases_verified_with_every_writer_held_back_at_first_read, extra.tcp_slow_reader_bytes_written_per_connection_at_first_read_min_max) and a run in which a clean scenario was not like that is vacuous (a machinery error); the socket buffer sizes are the kernel's (no SO_SNDBUF / SO_RCVBUF is set); only the order 'first read after the stall' is imposed on the reader, how fast it reads afterwards is whatever the runtime gives. The writes are {} ms apart on purpose: the bridges of the subject put everything they can read at one go into ONE Push frame and the window counts frames, so a writer that never pauses travels as a few frames of many megabytes and no window ever fills (measured here: 256 MiB written within 3 s with nobody reading); how many frames the paced writes become is still the subject's and the scheduler's business", b.slow_reader_stall_s, tcp::K16_PAUSE.as_millis()));
+    rep.assumptions.push(format!("slow-reader sub-matrix: the stall is a fixed time ({} s), not 'until the writer blocks'; that the writers were in fact held back when the reading began (payload bytes left to write on every connection) is recorded (extra.tcp_slow_reader_cases_verified_with_every_writer_held_back_at_first_read, extra.tcp_slow_reader_bytes_written_per_connection_at_first_read_min_max) and a run in which no clean scenario was like that is vacuous (a machinery error); the socket buffer sizes are the kernel's (no SO_SNDBUF / SO_RCVBUF is set); only the order 'first read after the stall' is imposed on the reader, how fast it reads afterwards is whatever the runtime gives. The writes are {} ms apart on purpose: the bridges of the subject put everything they can read at one go into ONE Push frame and the window counts frames, so a writer that never pauses travels as a few frames of many megabytes and no window ever fills (measured here: 256 MiB written within 3 s with nobody reading); how many frames the paced writes become is still the subject's and the scheduler's business", b.slow_reader_stall_s, tcp::K16_PAUSE.as_millis()));
     rep.assumptions.push("target refuses: a SOCKS/HTTP success answer followed by a close, a refusal answer, or a close before the answer all count as 'closed rather than left hanging'".into());
     rep.assumptions.push("the address inside the SOCKS5 UDP reply header is recorded (extra.socks5_udp_header_addr_*), not judged: the statement only demands a well-formed header that can be stripped".into());
     rep.assumptions.push("loopback only (127.0.0.1, a Unix socket and, for the targets of the IPv6-literal, dual-stack-name and two-address-families sub-matrices where it exists, [::1]); plain ws:// between client and server; keep-alive off; fresh client+server per matrix point".into());
@@ -1543,8 +1543,10 @@ pub fn run(args: &Args) -> Report {
         if sums.tcp.after_halfclose_closed == 0 && cases.iter().any(|c| matches!(c, Case::Tcp(t) if t.order.after_half())) {
             why.push("no close after a half-close was observed");
         }
-        if sums.slow_reader_cases_clean > sums.tcp.slow_reader_backed_up {
-            why.push("a slow-reader scenario passed although a writing end had written its whole payload before the slow end began to read (the buffers on the way swallowed it)");
+        // (one such scenario may be the load of the machine: the paced writer was too slow to fill
+        // the buffers within the stall; none at all is a sub-matrix that does not do its job here)
+        if sums.slow_reader_cases_clean > 0 && sums.tcp.slow_reader_backed_up == 0 {
+            why.push("every slow-reader scenario passed with a writing end that had written its whole payload before the slow end began to read (the buffers on the way swallowed it)");
         }
         if sums.tcp.refuse_granted_then_closed + sums.tcp.refuse_refused_reply + sums.tcp.refuse_closed_before_reply == 0 {
             why.push("no refusal was observed");
